@@ -47,6 +47,20 @@ Lemma interleavings_disjoint threads sched :
   bad S = false /\ NoDup (map nkey (nodes (sh S))) /\ (holder S = None -> Inv (sh S)).
 Proof. apply (interleaving_table CArg). apply all_data_ok. Qed.
 
+Lemma no_deadlock_shared threads sched :
+  calls_from shared_methods threads ->
+  let S := run_sched (init (map (flatten DeclFaults) threads)) sched in
+  unfinished S ->
+  exists t i rest lo lo', nth_error (thr S) t = Some (i :: rest, lo) /\ nth_error (thr (step S t)) t = Some (rest, lo').
+Proof. apply (no_deadlock_table CGlobal). apply all_data_ok. Qed.
+
+Lemma no_deadlock_disjoint threads sched :
+  calls_from disjoint_methods threads ->
+  let S := run_sched (init (map (flatten DeclFaults) threads)) sched in
+  unfinished S ->
+  exists t i rest lo lo', nth_error (thr S) t = Some (i :: rest, lo) /\ nth_error (thr (step S t)) t = Some (rest, lo').
+Proof. apply (no_deadlock_table CArg). apply all_data_ok. Qed.
+
 (* ---------------- non-vacuity ---------------- *)
 (* the disjoint add_graph as it was BEFORE fix 74c0984: explicit release in the duplicate-id branch AND in
    finally.  The checker rejects it and the path "graph present" releases twice. *)
@@ -99,4 +113,14 @@ Lemma unlocked_loses_a_node :
 Proof.
   split; [vm_compute; reflexivity|]. split; [vm_compute; reflexivity|].
   vm_compute. intro H. inversion H as [|x l Hn Hd]; subst. apply Hn. left. reflexivity.
+Qed.
+
+(* thread 1 is waiting for the lock held by thread 0 (its acquire step changes nothing); thread 0 can go on *)
+Lemma waiting_example :
+  let S := run_sched (init (map (flatten DeclFaults) [[blank_call]; [blank_call]])) [0;0;1]%nat in
+  holder S = Some 0%nat /\ step S 1%nat = S /\ unfinished S /\ step S 0%nat <> S.
+Proof.
+  vm_compute. split; [reflexivity|]. split; [reflexivity|]. split.
+  - exists 0%nat. eexists. eexists. eexists. reflexivity.
+  - intro H. discriminate H.
 Qed.
